@@ -468,7 +468,7 @@ class Model(object):
         out = []
         for s in self.targets_of(t):
             if self.is_history(s):
-                hv = self.history_value.get(id(s))
+                hv = self.hist_get(s)
                 if hv:
                     for x in hv:
                         if x not in out:
@@ -526,6 +526,18 @@ class Model(object):
                     self.history_value[id(h)] = [x for x in self.configuration if self.is_atomic(x) and self.is_descendant(x, s)]
                 else:
                     self.history_value[id(h)] = [x for x in self.configuration if x.parent is s]
+        if "shared_history" in self.variant:
+            # like the engines: one set of remembered states for the whole document; each history of an exited state clears
+            # the part it covers (deep: all descendants of its parent) and sets what is active there - so an outer deep history
+            # wipes what an inner history of a currently inactive state had remembered
+            hb = self.__dict__.setdefault("hbits", set())
+            for h in [e for e in self.root.walk() if e.tag == "history" and e.parent in to_exit]:
+                comp = self.hist_completion(h)
+                for x in comp:
+                    hb.discard(id(x))
+                for x in comp:
+                    if x in self.configuration:
+                        hb.add(id(x))
         for s in to_exit:
             self.tokens.append(("x", self.sid(s)))
             for blk in [c for c in s.children if c.tag == "onexit"]:
@@ -578,9 +590,23 @@ class Model(object):
             return all(self.in_final_state(c) for c in self.child_states(s))
         return False
 
+    def hist_completion(self, h):
+        if h.attrs.get("type") == "deep":
+            return [x for x in h.parent.walk() if x is not h.parent and x.tag in ("state", "parallel", "final")]
+        return [x for x in h.parent.children if x.tag in ("state", "parallel", "final")]
+
+    def hist_get(self, h):
+        if "shared_history" not in self.variant:
+            return self.history_value.get(id(h))
+        hb = self.__dict__.get("hbits", set())
+        rem = [x for x in self.hist_completion(h) if id(x) in hb]
+        if h.attrs.get("type") == "deep":
+            return [x for x in rem if not any(c in rem for c in x.children)]
+        return rem
+
     def add_descendants(self, state, to_enter, default_entry, default_hist):
         if self.is_history(state):
-            hv = self.history_value.get(id(state))
+            hv = self.hist_get(state)
             if hv:
                 for s in hv:
                     self.add_descendants(s, to_enter, default_entry, default_hist)
